@@ -26,4 +26,11 @@ ShapeClash == <<
   [name |-> "xb.billing.v1", files |-> << [name |-> "a", decls |-> <<"Thing">>, refs |-> << >>] >>],
   [name |-> "user.v1", files |-> << [name |-> "a", decls |-> <<"Holder">>, refs |-> << <<"xa.billing.v1", "Thing">>, <<"xb.billing.v1", "Thing", "short">> >>],
                                     [name |-> "b", decls |-> <<"Other">>,  refs |-> << <<"xb.billing.v1", "Thing">>, <<"xa.billing.v1", "Thing", "short">> >>] >>] >>
+\* a package whose directory lies inside another package's directory (na/v1/sub/v1 under na/v1): which package a file
+\* belongs to must not depend on the order in which the packages are listed
+ShapeNested == <<
+  [name |-> "na.v1", files |-> << [name |-> "a", decls |-> <<"Thing">>, refs |-> << >>],
+                                  [name |-> "b", decls |-> <<"Other">>, refs |-> << <<"na.v1", "Thing">> >>] >>],
+  [name |-> "na.v1.sub.v1", files |-> << [name |-> "a", decls |-> <<"Thing">>, refs |-> << <<"na.v1", "Thing">> >>],
+                                         [name |-> "b", decls |-> <<"Leaf">>, refs |-> << <<"na.v1.sub.v1", "Thing">> >>] >>] >>
 =============================================================================
